@@ -87,6 +87,14 @@ def run_driver(driver, payload, hashseed="0", timeout=600, cwd=None, extra_env=N
     return json.loads(lines[-1][len("@@RESULT@@"):])
 
 
+def run_driver_raw(driver, payload, hashseed="0", timeout=600, cwd=None, extra_env=None):
+    """Like run_driver but returns (rc, result-or-None): the child may have been made to crash."""
+    path = os.path.join(HARNESS, driver)
+    rc, out = sh([PY, path], timeout=timeout, env=impl_env(hashseed, extra_env), cwd=cwd or scratch_dir(), inp=json.dumps(payload))
+    lines = [l for l in out.splitlines() if l.startswith("@@RESULT@@")]
+    return rc, (json.loads(lines[-1][len("@@RESULT@@"):]) if lines else None), out
+
+
 # --------------------------------------------------------------------------- Coq
 
 
